@@ -12,7 +12,7 @@ import ast
 from ..callgraph import show_path
 from ..model import src
 from ..report import Report, key_of
-from ..terms import pretty
+from ..terms import dag_nodes, pretty
 from .c08 import check_name_tests
 from .common import TRUSTED_BASE, cfg_nodes_for, subst_single_assign, where
 
@@ -304,6 +304,38 @@ def run(A, R: Report, thorough: bool):
         if m is not None:
             check_stateless(A, R, 'R10.4', f'{cname}.{mname}', [Ctx(m, ('inst', ci))], 'a remembered resolution is reused for another set of task names (another chain, more tasks): ambiguity is no longer detected', any_receiver=False, at=where(m))
     check_stateless(A, R, 'R10.4', '_find_task_full_name', [Ctx(entry_f, None)], 'the resolver must not remember earlier answers', any_receiver=True, at=where(entry_f))
+
+    # ---- R10.8 a candidate matches "without its group" by its last `:` component
+    R.rule('R10.8', 'the matcher strips the whole group path of a candidate (it compares the component after the last `:`), not only its first level', floor=1)
+    matchers = [g_ for g_ in A.prog.functions.values() if g_ is entry_f or (g_.parent is not None and (g_.parent is entry_f or g_.parent.name in ('_find_task_full_name', '_match_task_full_name')))]
+    found8 = []
+    for g_ in matchers:
+        tm = A.sym.func_term(g_, None)
+        for x in dag_nodes(tm):
+            if x[0] == 'index' and x[1][0] == 'method' and x[1][2] in ('split', 'rsplit', 'partition', 'rpartition') and x[1][3] and x[1][3][0] == ('lit', ':') and x[2][0] == 'lit':
+                m_, k_, extra = x[1][2], x[2][1], x[1][3][1:]
+                if m_ == 'split' and not extra and k_ == -1:
+                    verdict = True
+                elif m_ == 'rsplit' and k_ == -1:
+                    verdict = True
+                elif m_ == 'rpartition' and k_ in (2, -1):
+                    verdict = True
+                elif m_ in ('partition', 'rpartition') and k_ == 1:
+                    continue   # the separator itself: a "has a group" test
+                elif m_ == 'partition' and k_ in (2, -1):
+                    verdict = False
+                elif m_ == 'split' and extra and k_ in (1, -1):
+                    verdict = False
+                else:
+                    verdict = None
+                found8.append((g_, x, verdict))
+    if not found8 or any(v_ is None for _, _, v_ in found8):
+        R.undecided('R10.8', '_find_task_full_name: match without group', 'how the group is stripped from a candidate is not recognised', where=where(entry_f))
+    else:
+        bad8 = [(g_, x) for g_, x, v_ in found8 if v_ is False]
+        R.check(not bad8, 'R10.8', '_find_task_full_name: match without group', key_of('group-strip', [pretty(x)[:50] for _, x in bad8]), 'component after the last `:`',
+                f'`{pretty(bad8[0][1])[:70] if bad8 else ""}` drops only the first group level: a task in a group of two or more levels (`pkg:mod:name`) is no longer found by its bare name (KeyError / "Input task not found"), '
+                'and with another candidate `other:name` the ambiguous bare name silently resolves to that one', where=where(bad8[0][0]) if bad8 else where(entry_f))
 
     # ---- R10.7 the duplicate-input test compares exact names
     R.rule('R10.7', 'while the inputs of a task are wired, "this name is already an input" is an exact-key test (not the short-name lookup of InputTasks.__contains__)', floor=1)
